@@ -1874,10 +1874,12 @@ class _gpg_multivalued(_multivalued):
                     while True:
                         gpg_pre_lines, lines, gpg_post_lines = \
                             self.split_gpg_and_payload(line_iter, strict)
-                        # A block of comment lines only is not a paragraph:
-                        # comments are ignored, so go on to the next block.
-                        if gpg_pre_lines or \
-                                not all(ln.startswith(b'#') for ln in lines):
+                        # A block of comment (and whitespace-only) lines only
+                        # is not a paragraph: such lines are ignored, so go on
+                        # to the next block.
+                        if gpg_pre_lines or not all(
+                                ln.startswith(b'#') or not ln.strip()
+                                for ln in lines):
                             break
                 except EOFError:
                     # Empty input
